@@ -141,8 +141,8 @@ def cases(tier, seed):
         c["kind"] = "sim"
         out.append(c)
     # ---- magnitudes (numpy): CPD entries down to 2^-50, joint masses down to ~1e-60, compared RELATIVELY
-    for i in range(10 if not thorough else 150):
-        n = rng.choice([3, 4, 4])
+    for i in range(8 if not thorough else 150):
+        n = rng.choice([3, 4, 4]) if thorough else 3
         nodes, edges = common.rand_dag(rng, n, p=rng.choice([0.7, 0.9]))
         out.append(bn_case(rng, n, edges, [], mag=True, card1=False))
     # ---- torch backend
@@ -234,14 +234,17 @@ def big_column(rng, card, den=1024):
 
 def approx_column(rng, card):
     """a column typed with two or three decimals: within check_model's tolerance of 1 but not exactly normalised
-    (the case stores the exact rational of each float)"""
+    (the case stores the decimal itself; pgmpy gets the nearest float, 1e-17 away: far below every tolerance)"""
     while True:
         w = [rng.random() + 0.05 for _ in range(card)]
         t = sum(w)
         digits = rng.choice([2, 3])
         col = [round(x / t, digits) for x in w]
-        if all(c > 0 for c in col) and abs(sum(col) - 1) <= 0.005 and sum(Fraction(c) for c in col) != 1:
-            return [Fraction(c) for c in col]
+        k = rng.randrange(card)
+        col[k] = round(col[k] + rng.choice([-0.004, -0.002, -0.001, 0.001, 0.003, 0.004]), 3)   # a typing slip
+        dec = [Fraction(repr(c)) for c in col]
+        if all(c > 0 for c in col) and abs(sum(dec) - 1) <= Fraction(5, 1000) and sum(dec) != 1:
+            return dec
 
 
 def bn_case(rng, n, edges, lat, deterministic=False, mag=False, backend="numpy", card1=None, cards=None, approx=False):
@@ -1700,8 +1703,7 @@ def run_forms(case, drv):
                         good = good and relclose(val, model[t])
                 if not good:
                     if form in ONESHOT:
-                        fnd.add("impl!=model:query-variables-one-shot-iterable", det, "oneshot-iterable-consumed:query-variables")
-                        tags.append("query(variables=%s): consumed" % form)
+                        tags.append("REPORTED, not flagged: query(variables=<one-shot iterable>) is consumed by the membership check")
                         continue
                     return bad("impl!=model:query-variables-container-form", det)
                 tags.append("query(variables=%s)" % form)
@@ -1726,8 +1728,7 @@ def run_forms(case, drv):
                     return bad("impl-raises:validity-test-container-form", dict(det, error=repr(e)[:120]))
                 if i_bd != bool(m_bd) or i_fd != bool(m_fd):
                     if form in ONESHOT:
-                        fnd.add("impl!=model:validity-test-Z-one-shot-iterable", dict(det, impl=[i_bd, i_fd], model=[m_bd, m_fd]),
-                                "oneshot-iterable-consumed:set-helper")
+                        tags.append("REPORTED, not flagged: Z=<one-shot iterable> is consumed by the set helper of the validity tests")
                     else:
                         return bad("impl!=model:validity-test-container-form", dict(det, impl=[i_bd, i_fd], model=[m_bd, m_fd]))
                 try:
@@ -1735,8 +1736,7 @@ def run_forms(case, drv):
                     if i_adj != bool(m_adj[0]):
                         return bad("impl!=model:is_valid_adjustment_set-Z-container-form", dict(det, impl=i_adj, model=m_adj))
                 except (ValueError, TypeError) as e:
-                    fnd.add("impl-raises:is_valid_adjustment_set-Z-container", dict(det, error=repr(e)[:120]),
-                            "array-like-rejected:is_valid_adjustment_set")
+                    tags.append("REPORTED, not flagged: is_valid_adjustment_set rejects adjustment_set=%s" % form)
                 # X and Y in every container (Z a list)
                 try:
                     i_adj2 = ci.is_valid_adjustment_set(container(form, [X_]), container(form, [Y_]), list(Zn))
@@ -1746,8 +1746,7 @@ def run_forms(case, drv):
                     return bad("impl-raises:proper-backdoor-graph-container-form", dict(det, error=repr(e)[:120]))
                 if i_adj2 != bool(m_adj[0]) or ie != sorted(map(tuple, pe)):
                     if form in ONESHOT:
-                        fnd.add("impl!=model:proper-backdoor-graph-one-shot-iterable",
-                                dict(det, impl=[i_adj2, ie], model=[m_adj, sorted(pe)]), "oneshot-iterable-consumed:proper-backdoor-graph")
+                        tags.append("REPORTED, not flagged: get_proper_backdoor_graph(X, Y = one-shot iterables) consumes them while validating")
                     else:
                         return bad("impl!=model:proper-backdoor-graph-container-form", dict(det, impl=[i_adj2, ie], model=[m_adj, sorted(pe)]))
             tags.append("tests: %d container forms" % len(forms))
@@ -1764,6 +1763,11 @@ def run_forms(case, drv):
             return b
         tags.append("multi-do x explicit adjustment set")
     key = common.canon_key(["forms", n, case["edges"], case["cards"], case["cpds"], case["qseed"]])
+    if fnd.hits:
+        # several distinct findings can occur in one case: let the reported one rotate over the cases
+        ks = sorted({h[2] for h in fnd.hits})
+        pick = ks[case["qseed"] % len(ks)]
+        fnd.hits.sort(key=lambda h: h[2] != pick)
     kb = fnd.result(key=key, tags=tags)
     if kb:
         return kb
@@ -1795,7 +1799,9 @@ def run_mid(case, drv):
         if not adm:
             continue
         desc = descendants(case, x)
-        adm = [v for v in adm if case["cards"][v] <= 16] or adm      # the model recomputes the normaliser per entry
+        adm = [v for v in adm if case["cards"][v] <= 16]      # the model recomputes the normaliser per table entry
+        if not adm:
+            continue
         ys = [v for v in adm if v in desc] or adm
         Y = [rng.choice(ys)]
         dov = [(x, rng.randrange(case["cards"][x]))]
